@@ -135,7 +135,9 @@ def consdrop_monitor(case, il, sl):
 
 
 def suites(tier, seed):
-    return [Suite("consume-drop-schedules", "consdrop", lambda: [Case("x%d" % i, [o], {"keep_prefix": 0}) for i, o in enumerate(["run-close 600 0", "run-close 600 0", "run-close 300 4"] + ([] if tier == "quick" else ["run-close 6000 0", "run-close 3000 2", "run-close 2000 8"]))], monitor=consdrop_monitor, nontrivial=lambda c, il: True, compare=False, shards=4, shrink=False, timeout=600,
+    return [Suite("channel-close-mid-content", "machine", lambda: mg.close_mid_content_cases(Rng(seed + 91)), monitor=monitor, nontrivial=lambda c, il: True, canon=mg.canon_nondet, candidate_ok=mg.candidate_ok, exhaustive=True,
+                  rule="the server closes channel 1 (404 / 200) after the method, after the header, or after the first of two body frames of a delivery / get answer / returned message on it: only that channel ends (its caller and consumers get ServerClosedChannel, CloseOk is sent), a call and a delivery on channel 2 afterwards work"),
+            Suite("consume-drop-schedules", "consdrop", lambda: [Case("x%d" % i, [o], {"keep_prefix": 0}) for i, o in enumerate(["run-close 600 0", "run-close 600 0", "run-close 300 4"] + ([] if tier == "quick" else ["run-close 6000 0", "run-close 3000 2", "run-close 2000 8"]))], monitor=consdrop_monitor, nontrivial=lambda c, il: True, compare=False, shards=4, shrink=False, timeout=600,
                   rule="real connection + I/O thread + scripted broker that answers every Basic.Cancel by closing that channel (406): a fresh channel with a consumer per cycle, the consumer dropped (cancel in flight when the server's Channel.Close arrives), 300-600 cycles per case with 0-4 busy threads competing for the cores: after every cycle a call on the OTHER channel succeeds, at the end Connection::close returns Ok (schedule sampling; finding D15)"),
             Suite("id-lifecycles", "machine", lambda: mg.id_lifecycle_cases(Rng(seed + 5), 2, 5) + mg.id_lifecycle_cases(Rng(seed + 4), 2, 6, stride=23 if tier == "quick" else 2, offset=seed, prefix="k") + mg.id_lifecycle_cases(Rng(seed + 6), 3, 5 if tier == "quick" else 6, stride=19 if tier == "quick" else 29, offset=seed, prefix="j"),
                   monitor=monitor, nontrivial=lambda c, il: True, canon=mg.canon_nondet, candidate_ok=mg.candidate_ok, shards=4,
